@@ -1,12 +1,15 @@
 from .common import COMMON_TB
 
 CFG = dict(
-    coq="Properties/C18.v",
-    areas=["c18"],
+    coq=["Properties/C18.v", "Properties/C18Lzma.v"],
+    areas=["c18", "purity", "mt"],
+    # purity belongs to C13/C07: here the declared-size verdicts of LZMAWriter (lzexp / lzexpn) count;
+    # mt: the MT writers cut units / members of exactly the configured size (output == per-unit encoding)
+    oracle_filter={"purity": r"declared|accepted|header does not carry|finish was rejected", "mt": r"MT output|partial MT output"},
     level="proof",
     theorems_expected=["C18_xz_block_bound", "C18_xz_blocks_unset", "C18_xz_block_bound_refuted",
                        "C18_xz_block_bound_refuted_small_writes", "C18_lzip_member_bound", "C18_lzip_members",
-                       "C18_lzip_members_unset"],
+                       "C18_lzip_members_unset", "C18_lzma_expected_size"],
     rule="cases = (block/member size option {unset, 1, = dict, dict+k, > input, random}, dictionary size, total length, "
          "write() partition {one huge write, many small, around the limit, powers of two, random, with empty writes}) derived from "
          "VERIF_SEED by SplitMix64. xz_sizes/lzip_sizes: XZWriter/LZIPWriter are fed constant bytes of the given call lengths; the "
